@@ -25,7 +25,9 @@ PROP = dict(
          "flush+drop+re-import (20%), own-version change (2%); window parameters from {0,1,2,3,5,8,13,1000,usize::MAX}; F7 sources "
          "are generated jointly (consistent group layout, non-decreasing keys / item->group maps) and the first changed index of "
          "the five from_indexes/indirect methods is the first index at which the from-scratch outputs of the previous and the "
-         "current sources differ; all from one SplitMix64 state; non-trivial = at least two calls and at least two of "
+         "current sources differ; 5% of the cases use the LARGE profile (half of them on the Cursor / chunked-read methods): sources of 4090-9000 elements "
+         "described by generated segments, window starts / group boundaries jumping by 2..20 across multiples of 4096, windows "
+         "> 4096, resume points, truncation points and batch caps within +-8 of 4096/8192; all from one SplitMix64 state; non-trivial = at least two calls and at least two of "
          "{multi-batch call, truncating call, re-import, redundant call}; distinct = distinct input string",
     trusted_base=["compute_max/min with window 0: resume_ok proved for window >= 1 only (window 0 rebuilds an empty deque and behaves like "
                   "window 1): validated differentially",
@@ -62,7 +64,12 @@ TEXT = dict(
           "(C06_atl_exclude_default_refuted; C06_atl_exclude_default_outside_known_class proves the property for sources without "
           "a default value) and compute_first_per_index (C06_first_per_index_batch_limit_refuted: a finite batch limit can make "
           "the call loop forever; C06_first_per_index_regrowth_refuted: stale entries after truncation + regrowth)."),
-    note=("Trusted: Coq kernel; extraction + OCaml driver; the Rust harness. The Rust closures are hand-transcribed into "
+    note=("Cursor chunking: the Coq models need no chunked-cursor refinement — a Cursor is modelled as a position over the source "
+          "(next/advance/fold deliver source[pos..]); READ_CHUNK_SIZE buffering and refills are invisible at the model level, so a "
+          "defect in them is not a proof obligation of C06 (it is a read-path property, C08) and is covered here by the differential "
+          "on the large profile plus the naive definitional oracle (c06-<method>-differs-from-definition), which also fires when the "
+          "incremental and the one-shot run of the real method are wrong in the same way. "
+          "Trusted: Coq kernel; extraction + OCaml driver; the Rust harness. The Rust closures are hand-transcribed into "
           "Eager/EFamilies.v and tied to the code by differential agreement (0 model-level mismatches on the generated "
           "histories, debug and release builds)."),
 )
